@@ -208,8 +208,14 @@ Fixpoint parse_digits (acc : N) (l : bytes) : option N :=
   | b :: r => if is_digit b then parse_digits (acc * 10 + digit_val b) r else None
   end.
 
+Definition strip_plus (l : bytes) : bytes :=
+  match l with
+  | c :: r => if c =? 43 then r else l
+  | [] => l
+  end.
+
 Definition parse_unsigned (max : N) (l : bytes) : option N :=
-  let body := match l with 43 :: r => r | _ => l end in
+  let body := strip_plus l in
   match body with
   | [] => None
   | _ => match parse_digits 0 body with
@@ -222,18 +228,20 @@ Definition parse_unsigned (max : N) (l : bytes) : option N :=
    a lone sign is an error. *)
 Definition parse_signed (max : N) (l : bytes) : option Z :=
   match l with
-  | 45 :: r =>
-      match r with
-      | [] => None
-      | _ => match parse_digits 0 r with
-             | Some v => if v <=? max + 1 then Some (- Z.of_N v)%Z else None
-             | None => None
-             end
-      end
-  | _ => match parse_unsigned max l with
-         | Some v => Some (Z.of_N v)
-         | None => None
-         end
+  | c :: r =>
+      if c =? 45 then
+        match r with
+        | [] => None
+        | _ => match parse_digits 0 r with
+               | Some v => if v <=? max + 1 then Some (- Z.of_N v)%Z else None
+               | None => None
+               end
+        end
+      else match parse_unsigned max l with
+           | Some v => Some (Z.of_N v)
+           | None => None
+           end
+  | [] => None
   end.
 
 (* decimal rendering *)
